@@ -25,6 +25,10 @@ UNITS = {
 
 # property -> units per tier, claim text for the manifest
 PROPS = {
+    'C01': dict(quick=['core'], thorough=['core'],
+                claim='StarkProof::verify is proved to return Ok only if the predicate `accepted` holds: config_ok (C11, integer reading, blow-up >= 2, FRI input = evaluation domain), public input valid, every challenge equal to its Fiat-Shamir spec value, OODS vector of exactly MASK_SIZE+DEGREE values with composition-from-trace == claimed composition AT THE POSITIONS THE DEEP EVALUATION READS, all three table decommitments against the committed roots, FRI input values = DEEP combination of the DECOMMITTED cells with the SAME oods vector, every inner FRI layer decommitted against its root, last layer of 2^bound coefficients agreeing at every query. Generic in the layout through trait-level contracts.',
+                technique='chain of contracts verify -> validate, StarkDomains::new, get_hash, stark_commit -> (traces_commit, table_commit, verify_oods, fri_commit, pow commit), generate_queries, stark_verify -> (traces_decommit, table_decommit, queries_to_points, eval_oods_boundary_poly_at_points, fri_verify -> layers)',
+                note='Not decided: that `accepted` implies existence of a satisfying trace except with negligible probability (DEEP-ALI/FRI soundness, random-oracle Fiat-Shamir). Layout impls are checked against the trait contracts in the layout units (see evidence for which layouts).'),
     'C04': dict(quick=['core'], thorough=['core'],
                 claim='vector_commitment_decommit is proved to succeed exactly when the work-list walk of the statement (spec function root_spec: siblings merged when adjacent, otherwise one authentication node consumed, parents appended, hash chosen by depth vs friendly-layer count, masked hash = low 160/248 bits of H(be32(x)||be32(y))) yields the committed root; missing node <=> Err.',
                 technique='functional postconditions (code == spec walk) on vector_commitment_decommit, compute_root_from_queries (with termination measure), hash_friendly_unfriendly',
@@ -41,6 +45,14 @@ PROPS = {
                 claim='fri_verify is proved to return Ok exactly when: one value per query; for EVERY inner layer the gathered coset rows decommit against that layer\'s root (table_decommit_ok) and fold to the next layer; the last layer has exactly 2^bound coefficients; the coefficient polynomial evaluated at 1/x_inv equals the folded value at every surviving query. Missing witness leaves / layers give Err.',
                 technique='exact (<=>) postconditions on fri_verify, fri_verify_layers (spec layers_walk), verify_last_layer, compute_next_layer',
                 note='Not decided: rejection of functions of degree >= bound except with probability decaying in the number of queries (FRI soundness theorem).'),
+    'C13': dict(quick=['core'], thorough=['core'],
+                claim='PublicInput::get_hash is proved to return poseidon_many of exactly the sequence listed in the statement, in order: [nvf (stone6)] ++ [log_n_steps, rc_min, rc_max, layout] ++ dynamic params ++ flattened segments ++ [padding addr, padding value, n_pages, main page length, pedersen chain of the main page incl. 2*len] ++ flattened (start,size,hash) headers; prod is not bound.',
+                technique='functional postcondition + loop invariant (pedersen chain) on PublicInput::get_hash',
+                note='The three iterator statements enter through hoisting rules with assumed std semantics; the 340-field dynamic-params flattening is an uninterpreted sequence in this unit. Injectivity = hash injectivity (idealised). Not decided: reproduction of the prover\'s first challenges.'),
+    'C15': dict(quick=['core'], thorough=['core'],
+                claim='Page::get_product, get_continuous_pages_product, get_public_memory_product(_ratio) are proved equal to their defining products/quotient; get_diluted_product is proved equal to the doubling recurrence (p,q,x,diff_x) after n_bits-1 steps and to terminate.',
+                technique='loop invariants on Page::get_product, get_continuous_pages_product, get_diluted_product; functional postconditions on the memory product functions',
+                note='The equality doubling-recurrence == defining recurrence r_{j+1}=r_j(1+z u_j)+alpha u_j^2 over 2^n_bits values is NOT mechanised (algebra-heavy lemma, see DESIGN.md); the in-function assert! and the two field divisions are C18 obligations of the callers.'),
     'C08': dict(quick=['core'], thorough=['core'],
                 claim='Every Transcript operation is proved equal to a spec of the absorb/squeeze state machine (squeeze = poseidon(digest,counter), counter+1; absorb = poseidon_many([digest+1]++msg), counter reset); protocol functions are proved to perform exactly the scripted operations in order.',
                 technique='postconditions over the transcript state machine on Transcript::*, pow commit, generate_queries',
@@ -62,6 +74,15 @@ PROPS = {
                 technique='postcondition on StarkDomains::new + machine-checked lemmas (pow laws, 2-adic structure of P-1, compute_only for 3^(P-1), 3^((P-1)/2))',
                 note='That "h^(2^k)=1 and h^(2^j)!=1 for all j<k" characterises order 2^k is textbook and stated, not mechanised.'),
 }
+
+PROPS['C17'] = dict(quick=['core'], thorough=['core'],
+    claim='Every loop and recursive function under contract has a machine-checked decreases clause (Verus rejects the unit otherwise) and labelled trip-count bounds tied to validated constants or the length of supplied data: queries <= 48 (config), FRI layers <= 14, coset <= 16, layer loop <= |queries|, Merkle walk consumes a node or two entries per step, Horner = |coefficients|, page product = |main page|, diluted = n_bits-1 <= 63.',
+    technique='decreases clauses and loop invariants on every loop of the functions under contract (termination is an obligation of each unit)',
+    note='Library loops (Poseidon, Pedersen, pow_felt <= 252 squarings, bigint conversions) are trusted fixed-size code. random_felts_to_prover loops in proportion to a field value (flagged; it has no caller on the verifier path). The sum over the call graph is a table, not a mechanised theorem.')
+PROPS['C18'] = dict(quick=['core'], thorough=['core'],
+    claim='Every index, slice, unwrap/expect, assert!, panic!, integer overflow and zero-divisor site in the functions under contract is a discharged obligation; StarkProof::verify (generic layout) has no precondition beyond a 64-bit usize and a header count below usize::MAX. Interior functions require only what their callers are proved to establish.',
+    technique='implicit panic-freedom obligations generated by Verus for every function under contract, interior preconditions discharged along the verified call chain',
+    note='Division by the evaluation of a domain polynomial at a Fiat-Shamir point inside the autogenerated evaluators is assumed non-zero (A-fs-nonzero). Layout-specific functions: see evidence for coverage and known findings.')
 
 NOT_APPLICABLE = {
     'C03': 'quantifies over outputs of an external prover (25 shipped Stone proofs) and over compile-time builds; only running each proof through each build decides it, which is a test matrix, not a contract (DESIGN.md C03)',
